@@ -418,6 +418,10 @@ func (r *cliRun) readLoop() {
 	}
 	for {
 		f, err := r.fr.ReadFrame()
+		if se, ok := err.(xh2.StreamError); ok {
+			r.emit(sEvent{"k": "peerproto", "sid": int(se.StreamID), "code": int(se.Code)})
+			continue
+		}
 		if err != nil {
 			r.emit(sEvent{"k": "eof"})
 			if err != io.EOF && !strings.Contains(err.Error(), "closed") {
@@ -637,6 +641,7 @@ func (r *cliRun) stepCall(st *cStep) {
 		if err != nil {
 			ev["err"] = err.Error()
 			ev["errclass"] = errClass(err)
+			ev["retryable"] = http2.VerifRetryable(err)
 		} else {
 			fl := [][][]int{}
 			for k, v := range res.Header.All() {
